@@ -603,6 +603,14 @@ def is_try_ret(root, ret):
     return False
 
 
+def sp_key(n):
+    parts = (n.get("sp") or "").split(":")
+    try:
+        return (int(parts[1]), int(parts[2]))
+    except (IndexError, ValueError):
+        return (0, 0)
+
+
 def rule_read(c, prog, g, dreach):
     R = "C13.read"
     c.rule(R, "raw Read::read is called only inside read_exact_or_none, whose loop retries Interrupted and treats Ok(0) as EOF; everything else uses read_exact / take().read_to_end / xml-rs")
@@ -635,11 +643,102 @@ def rule_read(c, prog, g, dreach):
         c.ok(R, "read_exact_or_none:retry-interrupted")
     else:
         c.violation(R, "read_exact_or_none|arms", "read_exact_or_none must treat Ok(0) as EOF (break), retry ErrorKind::Interrupted, and return other errors; an arm is missing or changed", fn.sp, instance="read_exact_or_none:retry-interrupted")
-    # Read::read_to_end only behind take(len)
+    # Read::read_to_end behind take(len): on the caller's stream a short result is a truncated input and must be
+    # rejected (compare the length); on an in-memory chunk (&[u8]) truncation was already rejected by Chunk::decode
+    MEM = re.compile(r"^(&(mut )?)*\[u8\]$|^(&(mut )?)+\[u8\]$")
+
+    def peel(ty):
+        ty = ty or ""
+        while ty.startswith("&"):
+            ty = ty[5:] if ty.startswith("&mut ") else ty[1:]
+        return ty
+
+    def in_memory(ty):
+        return peel(ty) == "[u8]" or peel(ty).startswith("std::io::Cursor<")
+
+    def reader_class(fn2, recv):
+        """'memory' when every way the decoder reaches this read has an in-memory byte slice as the reader"""
+        ty = recv.get("ty")
+        if in_memory(ty):
+            return "memory"
+        if peel(ty) in ("Self",) or re.match(r"^[A-Z]\w*$", peel(ty) or ""):
+            # generic reader: look at what the decoder's call sites instantiate it with
+            tys = set()
+            short = fn2.path.rsplit("::", 1)[-1]
+            for caller in lib_named(prog, dreach):
+                for y in core.walk_fn(caller):
+                    if y.get("k") in ("MethodCall", "Call") and core.callee_generic(y) == fn2.path:
+                        if y.get("k") == "MethodCall":
+                            tys.add(y["recv"].get("ty"))
+                        else:
+                            tys.update(a.get("ty") for a in core.call_args(y) if "Read" in (a.get("ty") or "") or in_memory(a.get("ty")) or re.match(r"^(&mut )?[A-Z]\w*$", a.get("ty") or ""))
+            if tys and all(in_memory(t) for t in tys):
+                return "memory"
+        return "stream"
+
+    def derived_locals(fn2, lid):
+        d = {lid}
+        changed = True
+        lets = [st for st in core.walk_lets(fn2.body) if st.get("init") is not None]
+        while changed:
+            changed = False
+            for st in lets:
+                bound = {b["lid"] for b in core.walk(st["pat"]) if b.get("k") == "Binding"}
+                if bound <= d:
+                    continue
+                if any(y.get("k") == "Path" and y.get("res") == "local" and y.get("lid") in d for y in core.walk(st["init"])):
+                    d |= bound
+                    changed = True
+        return d
+
+    def length_checked(fn2, lid):
+        d = derived_locals(fn2, lid)
+        for y in core.walk_fn(fn2):
+            if y.get("k") == "If":
+                cmp_ = [z for z in core.walk(y["c"]) if z.get("k") == "Binary" and z["op"] in ("!=", "==", "<", ">", "<=", ">=")]
+                lens = [z for b in cmp_ for z in core.walk(b) if z.get("k") == "MethodCall" and z["m"] == "len" and core.strip(z["recv"]).get("lid") in d]
+                rets = [z for z in core.walk(y) if z.get("k") == "Ret" and z.get("e") is not None and "Err" in core.fingerprint(z["e"], 3) and not is_try_ret(y, z)]
+                if lens and rets:
+                    return True
+        return False
     for fn2 in lib_named(prog, dreach):
         for x in core.walk_fn(fn2):
             if x.get("k") == "MethodCall" and core.callee_generic(x) in ("std::io::Read::read_to_end", "std::io::Read::read_to_string"):
-                c.ok(R, f"{fn2.path}|{x['m']}")
+                inst = f"{fn2.path}|{x['m']}"
+                rc = core.strip(x["recv"])
+                src = rc["recv"] if rc.get("k") == "MethodCall" and rc["m"] == "take" else x["recv"]
+                cls = reader_class(fn2, src)
+                buf = core.strip(x["args"][0]) if x["args"] else {}
+                while buf.get("k") in ("AddrOf", "Unary"):
+                    buf = core.strip(buf["e"])
+                if cls == "memory":
+                    c.ok(R, inst + "|in-memory")
+                elif buf.get("lid") is not None and length_checked(fn2, buf["lid"]):
+                    c.ok(R, inst + "|length-checked")
+                else:
+                    c.violation(R, f"short|{fn2.path}|{x['m']}", f"{fn2.path} reads a declared number of bytes from the caller's stream with take(n).{x['m']}() and never compares what arrived with n: an input cut off inside this field decodes to a silently shortened value instead of an error (use read_exact, or reject a short result)", core.loc(x), instance=inst)
+    # a buffering adaptor put on a borrow of the caller's stream may read past what it hands out; dropping it while the
+    # stream goes on being read loses those bytes whenever read() returns less than was asked for
+    nb = 0
+    for fn2 in lib_named(prog, dreach):
+        for x in core.walk_fn(fn2):
+            if x.get("k") == "Call" and re.search(r"(BufReader|LineWriter|BufWriter)(::<[^>]*>)?::(new|with_capacity)$", core.callee_generic(x) or ""):
+                if "BufReader" not in (core.callee_generic(x) or ""):
+                    continue
+                args = core.call_args(x)
+                inner = args[-1] if args else {}
+                if (inner.get("ty") or "").startswith("&mut "):
+                    base = core.strip(inner)
+                    while base.get("k") in ("AddrOf", "Unary"):
+                        base = core.strip(base["e"])
+                    later = [y for y in core.walk_fn(fn2) if y.get("k") == "Path" and y.get("res") == "local" and y.get("lid") == base.get("lid") and y is not base and sp_key(y) > sp_key(x)]
+                    nb += 1
+                    if later:
+                        c.violation(R, f"rebuffer|{fn2.path}", f"{fn2.path} wraps a borrow of the stream in a BufReader and goes on reading the stream itself afterwards: whatever the BufReader had read ahead is lost, so the result depends on how the reader splits the input into read() calls", core.loc(x), instance=f"{fn2.path}|bufreader")
+                    else:
+                        c.ok(R, f"{fn2.path}|bufreader")
+    if nb == 0:
+        c.ok(R, "no-temporary-bufreader-on-borrowed-stream")
 
 
 def rule_sink(c, prog, g, sreach):
